@@ -431,6 +431,77 @@ Proof.
   - apply memz_false in Hp. contradiction.
 Qed.
 
+(* the model states behind the summaries of a run: at every step the reader state is related (Inv)
+   to the summary state the oracle has at that step *)
+Lemma run_states : forall ops st S i o Si, forallb op_okb ops = true -> Inv st S ->
+  nth_error ops i = Some o -> nth_error (states S ops (mrun true st ops)) i = Some Si ->
+  exists sti, Inv sti Si
+    /\ nth_error (mrun true st ops) i = Some (mk_sobs (fst (step true sti o)) o (snd (step true sti o))).
+Proof.
+  induction ops as [|o0 ops IH]; intros st S i o Si Hok HI Ho Hs; [destruct i; discriminate|].
+  cbn [forallb] in Hok. apply andb_true_iff in Hok as [H1 H2].
+  cbn [mrun states] in *. destruct (step_sound st S o0 H1 HI) as (S' & E & HI'). rewrite E in Hs.
+  destruct i as [|i]; cbn [nth_error] in *.
+  - inversion Ho; inversion Hs; subst. exists st. split; [exact HI|reflexivity].
+  - apply (IH _ S' i o Si H2 HI' Ho Hs).
+Qed.
+
+(* replies only come from HEARTBEATs *)
+Lemma step_replies_hb st o r : In r (replies_of (snd (step true st o))) ->
+  exists w first last count final p, o = Hb w first last count final
+    /\ (first <=? MAX_SN) && (last <=? MAX_SN) = true /\ r_prox st w = Some p /\ p_hb p < count
+    /\ In (OReply r) (snd (handle_heartbeat true st w p first last count final)).
+Proof.
+  assert (Hprd : forall st w sn ts pay, replies_of (snd (process_received_data st w sn ts pay)) = []).
+  { intros st0 w sn ts pay. unfold process_received_data. destruct (r_prox st0 w); [|reflexivity].
+    destruct (should_ignore_change p sn); reflexivity. }
+  destruct o as [w sn ts pay|w df ts|w first last count final|w start base numbits bits]; cbn [step].
+  - destruct (negb (sn <=? MAX_SN)); [intros []|]. rewrite Hprd. intros [].
+  - destruct (negb ((F.df_sn df <=? MAX_SN) && (F.df_start df <=? MAX_FN))); [intros []|].
+    destruct (negb (datafrag_deser_ok df)); [intros []|].
+    destruct (F.new_datafrag _ df 0) as [|[fa' [bytes|]]]; cbn [snd]; try (intros H; cbn in H; tauto).
+    rewrite Hprd. intros [].
+  - destruct ((first <=? MAX_SN) && (last <=? MAX_SN)) eqn:Hacc; cbn [negb]; [|intros []].
+    destruct (r_prox st w) as [p|] eqn:Ep; [|intros []].
+    intros Hin. exists w, first, last, count, final, p. split; [reflexivity|]. split; [exact Hacc|]. split; [exact Ep|].
+    assert (Hin' : In (OReply r) (snd (handle_heartbeat true st w p first last count final))).
+    { unfold replies_of in Hin. apply in_flat_map in Hin as (x & Hx & Hr). destruct x; cbn in Hr; try tauto.
+      destruct Hr as [<-|[]]. exact Hx. }
+    split; [|exact Hin'].
+    destruct (Z.lt_ge_cases (p_hb p) count) as [|Hge]; [assumption|exfalso].
+    unfold handle_heartbeat in Hin'. destruct (Z.leb_spec count (p_hb p)); [destruct Hin'|lia].
+  - destruct (negb ((start <=? MAX_SN) && (base <=? MAX_SN))); [intros []|].
+    destruct (r_prox st w) as [p|]; [|intros []]. unfold handle_gap.
+    destruct (start <=? 0); [intros []|]. destruct (base <=? 0); intros [].
+Qed.
+
+Lemma hb_no_adds st w p first last count final :
+  adds_of (snd (handle_heartbeat true st w p first last count final)) = [].
+Proof.
+  unfold handle_heartbeat. destruct (count <=? p_hb p); [reflexivity|].
+  destruct (negb _ || negb final); [|reflexivity].
+  destruct (hb_sns st w _ _) as [[b n] m]. cbn [snd]. rewrite adds_of_mark, adds_of_app, adds_of_map. reflexivity.
+Qed.
+
+(* the model's ACKNACK base: everything below it is even RECORDED (taken note of by the reader), not
+   only DECLARED.  This is about the model (it needs the reader state); the oracle that judges the
+   implementation checks DECLARED only, as the property text asks. *)
+Theorem base_recorded c i o so s s1 : wf_case c = true -> summary_at c i o so s s1 ->
+  forall w base n bits cnt, In (AckNack w base n bits cnt) (so_replies so) ->
+  forall m, m < base -> recorded s1 m = true.
+Proof.
+  intros Hwf (Si & A & B & C & D & E) w base n bits cnt Hin m Hm.
+  destruct (run_states _ _ _ _ _ _ Hwf (Inv_init (c_matched c)) A C) as (sti & HI & Hso).
+  unfold L in B. rewrite B in Hso. inversion Hso; subst so. clear Hso.
+  cbn [so_replies mk_sobs] in Hin.
+  destruct (step_replies_hb _ _ _ Hin) as (w0 & first & last & count & final & p & -> & Hacc & Hp & Hcnt & Hin').
+  cbn [op_writer] in D.
+  destruct (Inv_InvW sti Si w0 p s HI Hp D) as [Hrel _].
+  destruct (hb_ack_base sti w0 p s first last count final Hrel Hacc Hcnt _ _ _ _ _ Hin') as [_ Hrec].
+  subst s1. cbn [so_adds mk_sobs step]. rewrite Hacc, Hp. cbn [negb]. rewrite hb_no_adds. cbn [map]. rewrite add_pts_nil.
+  now apply Hrec.
+Qed.
+
 (* the behaviour made visible: writer 1, reader's ack base 1.
      step 0  GAP [5, 1000)            recorded only within the window: 5..256 (252 markers)
      step 1  HEARTBEAT(1..1200)       ACKNACK base 1, bits 1..4
